@@ -57,6 +57,14 @@ def run(tier="quick", seed=0):
                     if why and len(viol) < 6:
                         viol.append({"id": "scalar_%d" % ev, "clause": "scalar", "why": why,
                                      "inputs": {"signed": signed, "n_bits": n_bits, "n_frac": n_frac, "value": repr(v)}})
+                # whole numbers given as python ints (a float-to-fixed converter is handed ints as readily as floats): the same
+                # value as the float of that number
+                for iv in (0, 1, -1, 2, -2, 3, -3, 5, -5, 7, -7, 100, -100, 255, -256, 12345, -12345):
+                    if math.isfinite(float(iv) * 2.0 ** n_frac):
+                        ev += 1
+                        if conv(iv) != conv(float(iv)) and len(viol) < 6:
+                            viol.append({"id": "scalarint_%d" % ev, "clause": "scalar", "why": "the int %d converts to %r, the float %r to %r" % (iv, conv(iv), float(iv), conv(float(iv))),
+                                         "inputs": {"signed": signed, "n_bits": n_bits, "n_frac": n_frac, "value": repr(iv)}})
                 # round trip of representable values
                 for r0 in (lo, hi, 0, 1, -1 if signed else 1, hi // 3, lo // 3):
                     if abs(r0) < 2 ** 53 and lo <= r0 <= hi:       # (a representable value of THIS format)
@@ -176,6 +184,18 @@ def run(tier="quick", seed=0):
                             if isinstance(g, int) and oldb(g) != back(conv(v)) and len(viol) < 8:
                                 viol.append({"id": "depb_%d" % ev, "clause": "deprecated_agree", "why": "fix_to_float(%r) = %r, fp_to_float gives %r" % (g, oldb(g), back(conv(v))),
                                              "inputs": {"signed": signed, "n_bits": n_bits, "n_frac": n_frac, "value": repr(v)}})
+    # array fixed -> float for fraction widths far outside the word (the result is a double whatever the width of the words)
+    for dt, lo_, hi_ in ((np.int8, -128, 127), (np.uint8, 0, 255), (np.int16, -32768, 32767), (np.uint16, 0, 65535), (np.int32, -2 ** 31, 2 ** 31 - 1)):
+        for nf in (-40, -12, -9, -8, 0, 15, 16, 24, 25, 30, 40, 100, 130, 150):
+            ev += 1
+            words = np.array([lo_, hi_, 0, 1, 100 if hi_ >= 100 else 1], dtype=dt)
+            with warnings.catch_warnings():
+                warnings.simplefilter("ignore")
+                got = tc.NumpyFixToFloatConverter(nf)(words)
+            want = [tc.fp_to_float(nf)(int(x)) for x in words]
+            if [float(x) for x in got] != want and len(viol) < 8:
+                viol.append({"id": "npb2_%d" % ev, "clause": "numpy_fix_to_float", "why": "array %r gives %r, the scalar converter %r" % (words.tolist(), [float(x) for x in got], want),
+                             "inputs": {"dtype": np.dtype(dt).name, "n_frac": nf}})
     samples.append({"float_to_fp(True, 8, 4)": [[v, tc.float_to_fp(True, 8, 4)(v)] for v in (-8.0, -0.26, 7.95, 100.0)]})
     return {"name": "c16_typecasts", "evaluations": ev, "distinct_nontrivial": len(distinct),
             "rule": "formats signed/unsigned x n_bits 8,9,16,17,32,33,64,13 x n_frac {0,1,4,n/2,n-1,n,-2} (thorough: every width 1..64 x 20 fraction widths from -7 to n+9), each format built twice in one process (the list forwards, then backwards); inputs: both ends of the range, +-1 step, +-1 ulp, quarter steps, 0, +-0.5, +-1e30, subnormals, 2**63, 2**64; scalar result against exact rational scale/truncate/saturate, monotone over the sorted inputs, round trip of representable values, numpy converters element-wise against the scalar (arrays of doubles of shapes (), (n,), (1,n); float32 and float16 arrays; transposed, Fortran-ordered, axis-permuted and strided views, with the caller's array unchanged; one converter object called twice, the first result still intact afterwards), deprecated variants modulo 2**n (every format whose parameters they accept, every input)",
